@@ -30,6 +30,10 @@ def gen_log(rng):
             lines.append(rng.choice(TRACE))
         elif k < 0.66:
             lines.append(rng.choice(PLAIN) + b"\0after-nul FAILED")
+        elif k < 0.72:
+            # long lines (compiler and linker command lines): around and beyond the line buffer's 1 KiB, with or without a keyword at the end
+            n = rng.choice([1000, 1022, 1023, 1024, 1025, 1500, 2047, 2048, 5000])
+            lines.append(b"cc -o t " + b"x" * n + (b" " + rng.choice(OUTCOMES) if rng.random() < 0.6 else b""))
         else:
             lines.append(rng.choice(PLAIN))
     content = b"\n".join(lines)
